@@ -153,6 +153,9 @@ class CheckC04(core.Check):
             if ew is None or er is None or not ew.ok:
                 r.foreign_dev("C02", "honest session did not reach the transport write")
                 continue
+            if er.panic and kind != "control":
+                r.viol("C04|panic|%s" % kind, "%s: transport read panicked on a hostile delivery (%s %s) instead of returning an error: %s" % (name, kind, arg[:30], er.res[:120]))
+                continue
             if er.panic:
                 r.foreign_dev("C10", "transport read panicked")
                 continue
